@@ -449,4 +449,191 @@ theorem loadChild_depth (w : World) : ∀ fuel d, ChildHands (loadChild w fuel d
                   have := (hall x hx).1
                   exact ⟨by omega, fun e => by omega⟩
 
+/-! ## more fuel never changes a result -/
+
+theorem parseItems_mono (w : World) (c1 c2 : ChildLoader)
+    (hc : ∀ s u r, c1 s u = .ok r → c2 s u = .ok r) :
+    ∀ items exp st st', parseItems w c1 items exp st = .ok st' → parseItems w c2 items exp st = .ok st' := by
+  intro items
+  induction items with
+  | nil => intro exp st st' h; simpa [parseItems] using h
+  | cons it t ih =>
+    intro exp st st' h
+    cases it with
+    | charset n =>
+      simp only [parseItems] at h ⊢
+      split
+      · rename_i hx; rw [if_pos hx] at h; exact ih _ _ _ h
+      · rename_i hx; rw [if_neg hx] at h
+        split
+        · rename_i hy; rw [if_pos hy] at h; exact ih _ _ _ h
+        · rename_i hy; rw [if_neg hy] at h; exact ih _ _ _ h
+    | ws => simp only [parseItems] at h ⊢; exact ih _ _ _ h
+    | comment => simp only [parseItems] at h ⊢; exact ih _ _ _ h
+    | other => simp only [parseItems] at h ⊢; exact ih _ _ _ h
+    | imp u =>
+      simp only [parseItems] at h ⊢
+      cases h1 : c1 st.sheet u with
+      | error e => rw [h1] at h; cases h
+      | ok r1 =>
+        rw [h1] at h
+        rw [hc _ _ _ h1]
+        simp only at h ⊢
+        split
+        · rename_i hx; rw [if_pos hx] at h; exact ih _ _ _ h
+        · rename_i hx; rw [if_neg hx] at h
+          split
+          · rename_i hy; rw [if_pos hy] at h; exact ih _ _ _ h
+          · rename_i hy; rw [if_neg hy] at h
+            split
+            · rename_i hz; rw [if_pos hz] at h; exact ih _ _ _ h
+            · rename_i hz; rw [if_neg hz] at h
+              cases h2 : c1 { st.sheet with rules := st.sheet.rules ++ [.imp] } u with
+              | error e => rw [h2] at h; cases h
+              | ok r2 =>
+                rw [h2] at h
+                rw [hc _ _ _ h2]
+                exact ih _ _ _ h
+
+theorem loadChild_fuel_succ (w : World) :
+    ∀ fuel d s u r, loadChild w fuel d s u = .ok r → loadChild w (fuel + 1) d s u = .ok r := by
+  intro fuel
+  induction fuel with
+  | zero => intro d s u r h; simp [loadChild] at h
+  | succ f ih =>
+    intro d s u r h
+    rw [loadChild] at h ⊢
+    simp only at h ⊢
+    split
+    · rename_i hx; rw [if_pos hx] at h; exact h
+    · rename_i hx; rw [if_neg hx] at h
+      split
+      · rename_i hy; rw [if_pos hy] at h; exact h
+      · rename_i hy; rw [if_neg hy] at h
+        cases hr : readUrl w (w.fetch u) s.override (parentEncodingOf s) with
+        | error e => rw [hr] at h; cases h
+        | ok o =>
+          rw [hr] at h
+          cases o with
+          | none => exact h
+          | some rd =>
+            simp only at h ⊢
+            cases ht : rd.text with
+            | none => rw [ht] at h; exact h
+            | some t =>
+              rw [ht] at h
+              simp only at h ⊢
+              cases hp : parseItems w (loadChild w f (d + 1)) (w.view t) 0
+                  ⟨beginEO ⟨some u, s.href :: s.ancestors, none, none, []⟩
+                    (if rd.enctype = 0 then some rd.encoding else none)
+                    (if 0 < rd.enctype ∧ rd.enctype < 5 then some rd.encoding else none), ⟨[], []⟩⟩ with
+              | error e => rw [hp] at h; cases h
+              | ok st =>
+                rw [hp] at h
+                rw [parseItems_mono w (loadChild w f (d + 1)) (loadChild w (f + 1) (d + 1))
+                  (fun s u r hr => ih (d + 1) s u r hr) _ _ _ _ hp]
+                exact h
+
+theorem loadChild_fuel_mono (w : World) (k : Nat) :
+    ∀ fuel d s u r, loadChild w fuel d s u = .ok r → loadChild w (fuel + k) d s u = .ok r := by
+  induction k with
+  | zero => intro fuel d s u r h; exact h
+  | succ j ih => intro fuel d s u r h; exact loadChild_fuel_succ w (fuel + j) d s u r (ih fuel d s u r h)
+
+/-! ## the reported encoding of an imported sheet is the encoding it was read in -/
+
+def RepRec (w : World) (x : Rec) : Prop :=
+  x.found = true →
+    (x.enctype < 5 → x.used ≠ [] → validName w x.used = true → x.reported = lower x.used) ∧
+    (x.enctype = 5 → x.reported = x.ownCharset.getD utf8N)
+
+theorem reported_ownCharset (rules : List RuleK) : reported rules = (ownCharsetOf rules).getD utf8N := by
+  cases rules with
+  | nil => rfl
+  | cons a t => cases a <;> rfl
+
+theorem beginEO_override_eq (s : Sheet) (eo en : Option Name) (h : truthy eo = true) :
+    (beginEO s eo en).override = eo := by
+  unfold beginEO
+  simp only [h, if_true]
+  split <;> rfl
+
+theorem loadChild_reported (w : World) :
+    ∀ fuel d s u r, loadChild w fuel d s u = .ok r → ∀ x ∈ r.out.recs, RepRec w x := by
+  intro fuel
+  induction fuel with
+  | zero => intro d s u r h; simp [loadChild] at h
+  | succ f ih =>
+    intro d s u r h
+    simp only [loadChild] at h
+    have failed : ∀ x ∈ [failedRec d u (parentEncodingOf s)], RepRec w x := by
+      intro x hx
+      simp only [List.mem_singleton] at hx
+      subst hx
+      intro hf; simp [failedRec] at hf
+    split at h
+    · simp only [Except.ok.injEq] at h; subst h; exact failed
+    · split at h
+      · simp only [Except.ok.injEq] at h; subst h; exact failed
+      · split at h
+        · cases h
+        · simp only [Except.ok.injEq] at h; subst h; exact failed
+        · rename_i rd hrd
+          split at h
+          · simp only [Except.ok.injEq] at h; subst h; exact failed
+          · rename_i t ht
+            split at h
+            · cases h
+            · rename_i st hst
+              split at h
+              · cases h
+              · rename_i st' hfin
+                simp only [Except.ok.injEq] at h
+                subst h
+                obtain ⟨_, hall⟩ := parseItems_all w (loadChild w f (d + 1)) (RepRec w) (fun _ => True)
+                  (fun _ _ _ => trivial) (fun s u r _ hr => ih (d + 1) s u r hr) _ _ _ _ hst trivial
+                  (by intro x hx; simp at hx)
+                have hout : st'.out = st.out := finishEO_out w st st' _ _ hfin
+                intro x hx
+                simp only [List.mem_cons] at hx
+                rcases hx with hx | hx
+                · subst hx
+                  intro _
+                  simp only
+                  constructor
+                  · intro hlt hne hv
+                    have htr : truthy (some rd.encoding) = true := (truthy_some_iff _).mpr hne
+                    unfold finishEO at hfin
+                    by_cases h0 : rd.enctype = 0
+                    · -- read with an override
+                      simp only [h0, if_true, htr] at hfin hst
+                      have hov := (parseItems_all w (loadChild w f (d + 1)) (fun _ => True)
+                        (fun s' => s'.override = some rd.encoding) (fun s rs h => h) (fun _ _ _ _ _ _ _ => trivial)
+                        _ _ _ _ hst (beginEO_override_eq _ _ _ htr) (by intro x hx; simp at hx)).1
+                      rw [hov] at hfin
+                      cases hs : setEncodingRule w st.sheet.rules ((some rd.encoding).getD []) with
+                      | error e => rw [hs] at hfin; cases hfin
+                      | ok rs =>
+                        rw [hs] at hfin
+                        simp only [Except.ok.injEq] at hfin; subst hfin
+                        exact setEncodingRule_reported w _ _ _ hv hs
+                    · have hr : 0 < rd.enctype ∧ rd.enctype < 5 := ⟨by omega, hlt⟩
+                      simp only [h0, if_false, show truthy (none : Option (List Nat)) = false from rfl,
+                        Bool.false_eq_true, hr, and_self, if_true, htr] at hfin
+                      cases hs : setEncodingRule w st.sheet.rules ((some rd.encoding).getD []) with
+                      | error e => rw [hs] at hfin; cases hfin
+                      | ok rs =>
+                        rw [hs] at hfin
+                        simp only [Except.ok.injEq] at hfin; subst hfin
+                        exact setEncodingRule_reported w _ _ _ hv hs
+                  · intro h5
+                    unfold finishEO at hfin
+                    have h0 : rd.enctype ≠ 0 := by omega
+                    have hr : ¬ (0 < rd.enctype ∧ rd.enctype < 5) := by omega
+                    simp only [h0, if_false, hr, show truthy (none : Option (List Nat)) = false from rfl,
+                      Bool.false_eq_true, Except.ok.injEq] at hfin
+                    subst hfin
+                    exact reported_ownCharset _
+                · rw [hout] at hx; exact hall x hx
+
 end CssVerif.EncLadder
